@@ -176,6 +176,16 @@ func main() {
 						case "id-only":
 							pskID = v["psk_id"]
 						}
+						// RFC 9180 5.1 compares with the EMPTY default: an absent value may be spelled nil or as an empty slice
+						if isPsk && (rep+int(kemID)+int(kdfID)+int(aeadID))%2 == 1 {
+							ln.Note = "absent PSK inputs spelled as empty slices; "
+							if psk == nil {
+								psk = []byte{}
+							}
+							if pskID == nil {
+								pskID = []byte{}
+							}
+						}
 						if !isPsk {
 							v["psk"], v["psk_id"] = nil, nil
 						}
@@ -183,6 +193,11 @@ func main() {
 						var enc []byte
 						var sealer hpke.Sealer
 						var serr error
+						if !isPsk && (rep+int(kemID)+int(kdfID)+int(aeadID))%2 == 1 && dev == "none" {
+							// the Sender object has been used for a PSK-mode setup before: what it does now must not depend on that
+							_, _, _ = snd.SetupPSK(&vlib.BytesReader{B: v["ikmE"]}, vlib.Bytes(rng, 32), []byte("earlier id"))
+							ln.Note += "sender reused after SetupPSK; "
+						}
 						rd := &vlib.BytesReader{B: v["ikmE"]}
 						switch mode {
 						case 0:
